@@ -2135,15 +2135,76 @@ def preprocess_file(
 
     def expand_func_macro(def_name: str, def_value: tuple[str, str]):
         def_args, sub = def_value
-        def_args = def_args.split(",")
-        regex = re.compile(rf"\b{def_name}\s*\({','.join(['(.*)']*len(def_args))}\)")
+        params = [arg.strip() for arg in def_args.split(",")]
+        # Matches the macro name and its opening parenthesis, the arguments are
+        # scanned by `substitute_func_macro`
+        regex = re.compile(rf"\b{def_name}\s*\(")
+        return regex, (params, sub)
 
-        # The body becomes a replacement template: keep its backslashes literal
-        sub = sub.replace("\\", "\\\\")
-        for i, arg in enumerate(def_args, start=1):
-            sub = re.sub(rf"\b({arg.strip()})\b", rf"\\{i}", sub)
-
-        return regex, sub
+    def substitute_func_macro(
+        line: str, regex: Pattern, params: list[str], body: str
+    ) -> tuple[str, int]:
+        """Replace every call of a function-like macro in the line by its body
+        with the arguments substituted. Arguments end at commas outside nested
+        parentheses and character literals."""
+        names = [re.escape(param) for param in params if param]
+        param_regex = re.compile(rf"\b({'|'.join(names)})\b") if names else None
+        out: list[str] = []
+        pos = 0
+        nsubs = 0
+        while True:
+            match = regex.search(line, pos)
+            if match is None:
+                break
+            args: list[str] = []
+            curr = ""
+            depth = 0
+            quote = ""
+            i = match.end()
+            closed = False
+            while i < len(line):
+                char = line[i]
+                if quote:
+                    if char == quote:
+                        quote = ""
+                    curr += char
+                elif char in ("'", '"'):
+                    quote = char
+                    curr += char
+                elif char in ("(", "["):
+                    depth += 1
+                    curr += char
+                elif char in (")", "]"):
+                    if depth == 0:
+                        closed = True
+                        break
+                    depth -= 1
+                    curr += char
+                elif char == "," and depth == 0:
+                    args.append(curr)
+                    curr = ""
+                else:
+                    curr += char
+                i += 1
+            if not closed:
+                break
+            args.append(curr)
+            if len(args) != len(params):
+                # Not a call of this macro, leave it alone
+                out.append(line[pos : match.end()])
+                pos = match.end()
+                continue
+            if param_regex is None:
+                expanded = body
+            else:
+                values = dict(zip(params, args))
+                expanded = param_regex.sub(lambda m: values[m.group(1)], body)
+            out.append(line[pos : match.start()])
+            out.append(expanded)
+            pos = i + 1
+            nsubs += 1
+        out.append(line[pos:])
+        return "".join(out), nsubs
 
     def append_multiline_macro(def_value: str | tuple, line: str):
         if isinstance(def_value, tuple):
@@ -2359,8 +2420,8 @@ def preprocess_file(
                 def_regexes[def_tmp] = def_regex
 
             if isinstance(def_regex, tuple):
-                def_regex, value = def_regex
-                line_new, nsubs = def_regex.subn(value, line)
+                def_regex, (params, value) = def_regex
+                line_new, nsubs = substitute_func_macro(line, def_regex, params, value)
             else:
                 # Object-like macro: the body is literal text, not a template
                 line_new, nsubs = def_regex.subn(lambda _, body=value: body, line)
